@@ -699,6 +699,17 @@ package leveldb
 //@   at before call makeInternalKey#1
 //@     assert [C01,C03,C11:a-record-takes-the-next-unused-sequence-number] arg2 == tr.seq + 1 && arg3 == kt && sameslice(arg1, key)
 
+// C08 / C11: a batch written into a transaction is applied wholly or not at all. Room for the whole batch is made
+// before its first record is entered (that is where a flush of the transaction's buffer can fail); from then on
+// applying a record cannot fail, so Write never returns an error with a prefix of the batch applied (F33).
+//@ func (*Transaction).Write$1
+//@   props C08 C11 C03 C01
+//@   safety off
+//@   ensures [C08,C11:applying-a-record-of-a-batch-cannot-fail] result == nil
+//@   at before call makeInternalKey#1
+//@     assert [C01,C03,C11:a-record-takes-the-next-unused-sequence-number] arg2 == tr.seq + 1 && arg3 == kt && sameslice(arg1, k)
+//@   ensures [C01,C03,C11:one-sequence-number-per-record] result == nil ==> tr.seq == old(tr.seq) + 1
+
 //@ func (*DB).OpenTransaction
 //@   props C11
 //@   ensures [C11:starts-at-db-seq] ret1 == nil ==> (ret0.seq == db.seq && db.tr == ret0 && len(ret0.tables) == 0)
